@@ -62,6 +62,27 @@ bool linearizable(const std::vector<Op>& ops, const Model& init) {
     return lin_rec(ops, used, nd, init);
 }
 
+// Is there a linearization of the COMPLETED operations (pending ones take no effect) whose final state satisfies `fin`?
+template <class Model, class Fin>
+bool lin_final_rec(const std::vector<Op>& ops, std::vector<char>& used, int remaining, const Model& m, Fin& fin) {
+    if (remaining == 0) return fin(m);
+    unsigned long min_t1 = ~0ul;
+    for (size_t i = 0; i < ops.size(); i++) if (!used[i] && ops[i].done) min_t1 = std::min(min_t1, ops[i].t1);
+    for (size_t i = 0; i < ops.size(); i++) {
+        if (used[i] || !ops[i].done || ops[i].t0 > min_t1) continue;
+        Model m2 = m;
+        if (!m2.apply(ops[i], true)) continue;
+        used[i] = 1; bool ok = lin_final_rec(ops, used, remaining - 1, m2, fin); used[i] = 0;
+        if (ok) return true;
+    }
+    return false;
+}
+template <class Model, class Fin>
+bool linearizable_final(const std::vector<Op>& ops, const Model& init, Fin fin) {
+    std::vector<char> used(ops.size(), 0); int nd = 0; for (auto& o : ops) nd += o.done;
+    return lin_final_rec(ops, used, nd, init, fin);
+}
+
 // let library worker threads run until they all sleep (or park); bounded
 inline void settle(int max_yields = 2000) { for (int i = 0; i < max_yields && !vf_others_idle(); i++) vf_yield(); }
 inline bool streq(const char* a, const char* b) { return !strcmp(a, b); }
